@@ -10,12 +10,12 @@ META = dict(
 
 
 def run(ctx):
-    n = ctx.pick(2, 3)
+    n = ctx.pick(3, 4)
     path, _ = ctx.tlc_gen("data", "URIModelGen", consts={"N": n}, workers=4, timeout=1500)
     if not path:
         raise Infra("URIModelGen wrote no vectors")
     recs = ctx.go_test(".", ["c27_"], "^TestVerifC27", infile=path, timeout=900,
-                       env={"VERIF_C27_MUTANTS": ctx.pick(1, 12)})
+                       env={"VERIF_C27_MUTANTS": ctx.pick(2, 12)})
     ctx.absorb(recs)
     ctx.traces_validated = ctx.evaluations
     ctx.exhaustive = False
